@@ -461,7 +461,7 @@ func (propC11) Meta() PropMeta {
 		Rule: fmt.Sprintf("cases 0..%d enumerate context x layout (inline/multi-line, 1-3 items) x every literal of every Intrinsic alternative (boundary integers, 1-3 digit exponents, hexadecimal, all escape forms, astral runes) x strict/formatter rendering; the next %d cases put each unrepresentable-but-tokenizable literal (out-of-range integers, ill-formed escapes) into every context and demand a textual rejection; then 40 long documents (600-1200 integers in four layouts and two contexts, 4-11 KB; string literals and keys of 300-6000 bytes; 60-450 multi-line inner lists; valid nests of 20-120 levels; a 300-entry catalog; a 1100-digit float; 1100 lines); then association lists under every one of the seven contexts (context x inline/multi-line x rendering x {one item, two keys, a repeated key, only repeats, interleaved repeats, both empty forms}: a repeated key keeps its first position and last value whatever the context); then the whole literal pool of each Intrinsic alternative as the members of one Set and one List (distinct literals stay distinct members, including complex numbers whose squared magnitude overflows or underflows) and Sets of Maps with 2-4 keys written in different key orders (equal Maps are one member whatever Go's map iteration order); then Sets of two equal members nested 3, 15, 16, 17, 18 and 40 levels deep (beyond 16 the library's collator gives up: the recorded known finding); the remaining cases are sentences drawn from the grammar of Syntax.cdsn (nesting <= 6, <= 40 items per list, both empty forms under every context, association items under value contexts in one list out of six, mixed layouts; token counts below/at/above the scanner queue capacity 16). The harness refuses to run if the rule section of the repository's Syntax.cdsn differs from its encoding. Every sentence is parsed under k seeded schedules (quick 3, thorough 12; parser-first, scanner-first, random, PCT, sticky, starve; every third one on a parser instance that has already parsed other texts, failed parses included) as a two-task simulation; oracle: accepted, canonical tree (public API walk) equals the strconv-evaluated derivation tree, identical under every schedule, no task left behind, no scanner/parser data race. Distinct = distinct (sentence, schedule traces).", systematicCount()-1, len(mustReject)*len(contexts)*2),
 		Assumptions: []string{
 			"the library collator is trusted to order Set members (C07's subject); the oracle demands strictly ascending order under it and natural order for homogeneous ints/strings",
-			"Queue and Stack literals stay within 16 items; Maps inside Sets have at most one entry (Go map iteration order is not a seam)",
+			"generated Queue literals stay within 16 items (larger ones are the constructor matrix of C05); Maps that are members of a Set have at most three entries; Go map iteration order inside the library is drawn from the tape (simrt.MapSeq / MapKeysOf)",
 			"float overflow to +-Inf is accepted either way",
 			"the escapes \\\" inside a rune and \\' inside a string are left undecided (the published grammar does not define ESCAPE)",
 		},
